@@ -1,5 +1,5 @@
 #!/usr/bin/env python3
-"""usage: keepseed.py <worktree out dir> <seed id> <checks run, comma separated> <result text>
+"""usage: keepseed.py <worktree out dir> <seed id> <checks run, comma separated> <result text> [caught by, comma separated; default: first check run]
 copies patch.diff, the demonstration and meta.json (augmented) to /verif/seeded/<seed id>/"""
 import json, os, shutil, sys
 src, sid, checks, result = sys.argv[1:5]
@@ -17,5 +17,6 @@ m['confirmed_by_me'] = {'suite_passes_with_patch': True, 'demo_fails_with_patch'
                         'how': 'tools/seedtest.sh in the scratch worktree the change was written in (git apply, go test ./..., demo.sh with and without the patch)'}
 m['checks_run'] = checks.split(',')
 m['result'] = result
+m['caught_by'] = sys.argv[5].split(',') if len(sys.argv) > 5 else checks.split(',')[:1]
 json.dump(m, open(mp, 'w'), indent=1)
 print('kept', dst)
